@@ -6,7 +6,8 @@ CFG = dict(
     theorems=["stl_length", "stl_roundtrip", "stl_roundtrip_trailing", "stl_count_wraps",
               "stl_reencode_prefix", "stl_reencode", "stl_decode_ok_iff", "stl_decode_short",
               "stl_roundtrip_exact", "chunks_eq_triples", "stl_mesh_roundtrip", "stl_mesh_roundtrip_partial", "stl_no_normals_witness",
-              "stl_geometric_normal_counterexample", "stl_mesh_nopos", "stl_mesh_oob",
+              "stl_geometric_normal_counterexample", "stl_mesh_nopos", "stl_mesh_oob", "stl_mesh_resave", "stl_mesh_resave_positions", "stl_mesh_resave_attr",
+              "stl_mesh_resave_attribute_witness", "stl_mesh_resave_zero_normal_mixed_witness", "stl_mesh_resave_nonunit_normal_witness",
               "stl_mesh_roundtrip_real", "stl_stored_normal_is_normalised_mean", "stl_fallback_normal_is_geometric",
               "stl_stored_normal_returned"],
     streams=[dict(name="c07", n=dict(quick=250, thorough=6000))],
@@ -15,8 +16,9 @@ CFG = dict(
         "driver instance of the precision bundle: Lean Float.toFloat32 / Float32.toFloat / Float arithmetic = Go float32()/float64()/float64 arithmetic on amd64 (observed bit-exact; NaN payloads canonicalised on both sides)",
     ],
     residue=[
-        "HEADLINE: Params.q32 / up / avgNormal / flatNormal are OPAQUE in every mesh-level theorem: 'rounded to float32', 'normalised mean of the corner normals' and 'geometric normal' are therefore correspondence content (the Go expressions executed at Float in the driver, compared bit for bit on every run), not theorem content; the theorems prove which corner / which normal function result goes where, for every mesh",
-        "clause 3 (read -> write reproduces the triangle records) is proved at the stl.Read / stl.Write level (stl_reencode); ReadMesh -> WriteMesh is NOT covered by a theorem (WriteMesh re-derives normals from corner normals and re-rounds positions)",
+        "HEADLINE: q32 (float64->float32) and up (widening) stay OPAQUE: 'rounded to float32' is correspondence content (Go's float32() vs Lean's Float.toFloat32, bit for bit on every run). The two normal expressions are NO LONGER opaque: they are regenerated from write.go / read.go by engine F (mode c07.normals -> Gen/StlNormals.lean; method chains over the vector library table Model/Vec.lean), the driver executes the regenerated definitions at Float (bit-exact against Go), and over R they are proved to be the unit vector along the mean of the corner normals (avgNormal_unit_mean) and the unit, edge-orthogonal, right-handed geometric normal (flatNormal_geometric); Props/C07Normals.lean instantiates Params with them (stl_mesh_roundtrip_real, stl_stored_normal_is_normalised_mean, stl_fallback_normal_is_geometric). IEEE rounding of these expressions is not modelled (theorems are over R); the same statements are evaluated at Float with a tolerance on implementation output (oracles c07.holds.unit_mean, c07.holds.geometric_fallback)",
+        "cancelling corner normals / degenerate triangles: over R (x/0 = 0 convention) the expressions give the zero vector (avgNormal_cancelling_real_convention); the Go code computes IEEE 0/0 = NaN, stores NaN words, and ReadMesh keeps a NaN normal as it is (nan_normal_kept: a NaN word is not 'zero') - correspondence content, fed by the stream (zero, cancelling, overflowing normals)",
+        "clause 3 (read -> write reproduces the triangle records) is READ AT THE BINARY LEVEL (stl.Read / stl.Write, theorem stl_reencode): the clause speaks of the 50-byte records incl. the attribute word and the property's observe_at lists stl.Read; a Mesh has no place for header or attribute word. The mesh-level path ReadMesh -> WriteMesh is documented as exact behaviour, not as a clause: stl_mesh_resave (zero header, attribute 0, positions q32(up w), normal q32(avgNormal n n n) of the stored-or-geometric normal n, all-zero if every stored normal is zero), stl_mesh_resave_positions (positions reproduced iff q32(up w) = w on the stored words), closed witnesses for non-unit normal / zero normal next to non-zero / attribute word, and the ordinary correspondence line c07.resavemesh (exact re-saved bytes on random binaries, arbitrary well-formed and malformed byte strings, tame files with non-zero headers and attributes)",
         "KNOWN FINDING (normal clause at full strength, def C07_geometric_normal_full): a mesh that stores no normals is read back with no normal attribute; closed counterexample stl_geometric_normal_counterexample / stl_no_normals_witness, replayed on the real code by op c07.holds.geometric_normal_when_none_stored_witness (expected false; formats/stl/read_test.go:31 pins the behaviour); proved part: stl_mesh_roundtrip_partial (= stl_mesh_roundtrip)",
         "Params.avgNormal / flatNormal are opaque in the theorems: that `v1.Add(v2).Add(v3).DivByConstant(3).Normalized()` IS the normalised mean (and the cross product the geometric normal) in real arithmetic, and its IEEE rounding, are not proved; the float expressions are executed at Float in the driver and compared bit-for-bit with Go",
         "q32 (float64→float32 rounding) is opaque: 'rounded to float32' is the meaning of Go's float32(x), compared bit-for-bit, not proved to be round-to-nearest-even",
